@@ -1,7 +1,7 @@
 PROP = {
     "modules": ["Discv5Model.Props.C12"],
     "lemma_modules": ["Discv5Model.Proofs.ServicePolicy", "Discv5Model.Proofs.ServiceVals"],
-    "engines": [{"name": "service", "quick": 150, "thorough": 4000}, {"name": "handler", "quick": 40, "thorough": 800}],
+    "engines": [{"name": "service", "quick": 150, "thorough": 15000}, {"name": "handler", "quick": 40, "thorough": 800}],
     "rule": "service engine, profile C12: one Service (IPv4 / IPv6 / dual stack, accept-all or rejecting table filter, "
             "incoming limit 16 or 2, ENR update on/off) driven by scripted handler events: sessions and explicit adds with every "
             "record shape (no address, v4, v6, both, IPv4-mapped v6, ip without port, filter-rejected, changed address), "
